@@ -84,11 +84,30 @@ Definition entry_frame_spec (np nc ns : Z) (cres rc : Z) : Z * list leaf_act :=
    [if 0 <? nc then (if rc =? 0 then a0 23 else aZ 24 rc) else a0 23] ++ [aB 25 true] ++
    (if 0 <? ns then [aZ 33 cres] else [])).
 
-(* np nc ns are lengths: `len(xs) > 0` may as well be written `len(xs) != 0` *)
-Lemma chain_Entry_frame_ok nc cres rc np ns : 0 <= np -> 0 <= nc -> 0 <= ns ->
-  chain_Entry_frame nc cres rc np ns = entry_frame_spec np nc ns cres rc.
+(* A loop over an empty list does not run, so the mark of such a loop says nothing: the guards
+   `if len(xs) > 0` around the loops are optional in the source.  np nc ns are lengths (>= 0; the guard
+   may as well be `len(xs) != 0`); rc is what the rule-check loop leaves, nil when it has no slots. *)
+Definition norm_frame (np nc ns : Z) (tr : list leaf_act) : list leaf_act :=
+  filter (fun a => match fst a with 31 => 0 <? np | 32 => 0 <? nc | 33 => 0 <? ns | _ => true end) tr.
+
+Lemma norm_frame_spec np nc ns cres rc :
+  norm_frame np nc ns (snd (entry_frame_spec np nc ns cres rc)) = snd (entry_frame_spec np nc ns cres rc).
 Proof.
-  intros Hnp Hnc Hns. unfold chain_Entry_frame, entry_frame_spec, a0, aZ, aB. cbv zeta. leaf_cases.
+  unfold entry_frame_spec, a0, aZ, aB. cbn [snd].
+  destruct (0 <? np) eqn:E1, (0 <? nc) eqn:E2, (0 <? ns) eqn:E3; try destruct (rc =? 0);
+    cbn [app norm_frame filter fst]; rewrite ?E1, ?E2, ?E3; reflexivity.
+Qed.
+
+Lemma chain_Entry_frame_ok nc cres rc np ns : 0 <= np -> 0 <= nc -> 0 <= ns -> (nc = 0 -> rc = 0) ->
+  fst (chain_Entry_frame nc cres rc np ns) = cres /\
+  norm_frame np nc ns (snd (chain_Entry_frame nc cres rc np ns)) = snd (entry_frame_spec np nc ns cres rc).
+Proof.
+  intros Hnp Hnc Hns Hrc.
+  assert (Hrc' : 0 < nc \/ rc = 0) by (destruct (Z.eq_dec nc 0); [right; auto | left; lia]). clear Hrc.
+  unfold chain_Entry_frame, entry_frame_spec, a0, aZ, aB. cbv zeta.
+  split; [split_ifs; reflexivity|].
+  split_ifs; cbn [norm_frame filter fst snd app]; split_ifs; bool_facts;
+    first [reflexivity | exfalso; intuition (congruence || lia)].
 Qed.
 
 (* EntryPassedOnPanic: nothing for a nil context or when the outcome was reported; else defer,
@@ -392,7 +411,9 @@ Definition gen_chain_entry (pooled : Z) (x : ctx) (nd : nodes_t) (er : list berr
   let cres := if rc =? 0 then pooled else rc in
   let '(ret, tr) := chain_Entry_frame (Z.of_nat (length (checks ch))) cres rc
                       (Z.of_nat (length (preps ch))) (Z.of_nat (length (stats ch))) in
-  let st := fold_left frame_act tr {| f_x := x; f_nd := nd; f_lg := []; f_er := er; f_brk := None; f_pan := false |} in
+  let st := fold_left frame_act
+              (norm_frame (Z.of_nat (length (preps ch))) (Z.of_nat (length (checks ch))) (Z.of_nat (length (stats ch))) tr)
+              {| f_x := x; f_nd := nd; f_lg := []; f_er := er; f_brk := None; f_pan := false |} in
   (* the deferred function: recover() returns the panic value iff a slot panicked *)
   let x' := if existsb (fun a => fst a =? 29) (chain_Entry_recover (if f_pan st then 1 else 0))
             then set_err (f_x st) PANIC else f_x st in
@@ -452,7 +473,14 @@ Proof.
   intros HF Hp Hpb Hspec. unfold gen_chain_entry, chain_entry.
   pose proof (gen_run_checks_ok res isb (x_flag x) (checks ch) HF 0 []) as H0.
   destruct (gen_run_checks res isb (x_flag x) (checks ch) 0 []) as [[[rc brk0] lg0] pan0] eqn:E0.
-  rewrite chain_Entry_frame_ok by apply Nat2Z.is_nonneg. unfold entry_frame_spec.
+  assert (RCN : Z.of_nat (length (checks ch)) = 0 -> rc = 0).
+  { intros L. destruct (checks ch); [cbn in E0; inversion E0; reflexivity | cbn [length] in L; lia]. }
+  destruct (chain_Entry_frame_ok (Z.of_nat (length (checks ch))) (if rc =? 0 then pooled else rc) rc
+              (Z.of_nat (length (preps ch))) (Z.of_nat (length (stats ch)))
+              (Nat2Z.is_nonneg _) (Nat2Z.is_nonneg _) (Nat2Z.is_nonneg _) RCN) as [FR FT].
+  destruct (chain_Entry_frame (Z.of_nat (length (checks ch))) (if rc =? 0 then pooled else rc) rc
+              (Z.of_nat (length (preps ch))) (Z.of_nat (length (stats ch)))) as [ret tr].
+  cbn [fst snd] in FR, FT. subst ret. rewrite FT. clear FT tr RCN. unfold entry_frame_spec. cbn [snd].
   (* prepare loop *)
   pose proof (gen_run_preps_ok (preps ch) x []) as P1.
   pose proof (run_preps_keeps (preps ch) x []) as PF.
